@@ -1019,7 +1019,10 @@ pub fn source_scan(out: &mut Out) {
         &[("_", "XInput.cmd / XInput.unwatch: everything else is queued — executor_variant_sweep queues EVERY Command variant"), ("Command::Watch", "XInput.watch inside MULTI"), ("Command::Exec|Command::Discard|Command::Multi", "fall through to execute_exec / execute_discard / execute_multi")],
     );
     let tops = std::fs::read_to_string(format!("{}/src/redis/executor/transaction_ops.rs", repo)).unwrap_or_default();
-    let fns: Vec<String> = tops.lines().filter_map(|l| l.trim_start().strip_prefix("pub(super) fn ").or_else(|| l.trim_start().strip_prefix("pub fn ")).or_else(|| l.trim_start().strip_prefix("pub(crate) fn "))).map(|r| r.chars().take_while(|c| c.is_alphanumeric() || *c == '_').collect()).collect();
+    // entry points of the executor-level machine: functions the dispatcher can call (pub / pub(super) /
+    // pub(crate)) and that can CHANGE the transaction state (`&mut self`); private helpers and read-only
+    // accessors cannot reach the property
+    let fns: Vec<String> = tops.lines().filter(|l| l.contains("&mut self")).filter_map(|l| l.trim_start().strip_prefix("pub(super) fn ").or_else(|| l.trim_start().strip_prefix("pub fn ")).or_else(|| l.trim_start().strip_prefix("pub(crate) fn "))).map(|r| r.chars().take_while(|c| c.is_alphanumeric() || *c == '_').collect()).collect();
     check(out, "executor:transaction_ops-functions", if fns.is_empty() { None } else { Some(fns) }, &["execute_multi", "execute_exec", "execute_discard", "execute_watch", "execute_unwatch"], &[]);
     // 6. every file of src/ that touches transaction state or dispatches the transaction commands
     let mut files = Vec::new();
